@@ -272,13 +272,17 @@ def run(ctx):
             continue
         ref_i, ref = dumps[0]
         ctx.evaluations += 1
+        reopen_failed = False
         for i in range(len(lines)):
             if lines[i].startswith("open") and i > ref_i and i < len(out) and " e=0" not in out[i]:
+                reopen_failed = True
                 cls = "reopen-fails"
                 if any(l.startswith("affixes") and j < len(out) and " e=0" in out[j] for j, l in enumerate(lines[:i])):
                     cls = "reopen-fails-after-alter-affixes"       # stale codes left by gd_alter_affixes (5.47)
                 ctx.fail("input", "%s after %s of a modified dirfile fails: %s" % (lines[i], metaB[ci], out[i]),
                          {"script": lines[:i + 1]}, sig={"class": cls})
+        if reopen_failed:
+            continue        # reported above; there is no database to compare with
         # a flush that reports failure keeps the changes pending (C12); nothing to compare then
         flush_failed = None
         for i in range(ref_i, len(lines)):
@@ -300,7 +304,9 @@ def run(ctx):
             if d != ref:
                 diff = first_diff(ref, d)
                 cls = "roundtrip"
-                if re.search(r'in2?="[PQIzJ_0-9a-z]*[_.]?[aimr][_.]?[A-Za-z_0-9]*"', diff) and re.search(r'in2?="[aimr]\.[A-Za-z0-9_]*z', diff):
+                if d == ref.replace(";8000000000000000", ";0"):
+                    cls = "negative-zero-imaginary"        # known finding 5.90
+                elif re.search(r'in2?="[PQIzJ_0-9a-z]*[_.]?[aimr][_.]?[A-Za-z_0-9]*"', diff) and re.search(r'in2?="[aimr]\.[A-Za-z0-9_]*z', diff):
                     # a one-letter input name (a, i, m, r) inside a fragment with affixes: written as "a.z",
                     # read back as namespace a + field z
                     cls = "dotz-under-affixes"
